@@ -2,12 +2,12 @@ package sym
 
 import (
 	"fmt"
-	"os"
-	"time"
 	"go/token"
 	"go/types"
+	"os"
 	"sort"
 	"strings"
+	"time"
 	"unicode/utf8"
 
 	"golang.org/x/tools/go/ssa"
@@ -59,6 +59,18 @@ type frame struct {
 	cut       *cutState
 	mergeCond []*mergeArm
 	skipPhis  bool
+}
+
+// tableLoopSpec describes the counted loop that fills a multiplication table
+// (rt.TableLoop): index variable, its range, and the number of table cells an
+// iteration must store.
+type tableLoopSpec struct {
+	varName       string
+	lo, hi        int64
+	storesPerIter int
+	phi           *ssa.Phi
+	iv            *term.T
+	stores        map[string]*term.T
 }
 
 type cutSpec struct {
@@ -163,6 +175,7 @@ type Engine struct {
 	dirs          map[string][]Value
 	files         map[string][]Value // modelled regular files (osfile.go)
 	gomaxprocs    *term.T
+	tableLoop     *tableLoopSpec
 	trace         []string
 	curFn         *ssa.Function
 	curInstr      ssa.Instruction
@@ -739,10 +752,16 @@ func (e *Engine) enterBlock(fr *frame) {
 		return
 	}
 	if fr.cut != nil && fr.cut.bodyOnly && !fr.cut.inLoop[b] {
+		if tl := e.tableLoop; tl != nil && tl.iv != nil {
+			e.obligation(term.BNot(term.Slt(tl.iv, term.Const(tl.iv.W, uint64(tl.hi)))), "table-contract: the table loop is left only when the index has reached the table length", false)
+		}
 		panic(pathEnd{"loop-exit"})
 	}
 	if fr.cut != nil && fr.cut.header == b {
 		if fr.cut.bodyOnly {
+			if tl := e.tableLoop; tl != nil && tl.iv != nil {
+				e.tableLoopBackEdge(fr, b, tl)
+			}
 			panic(pathEnd{"cut"})
 		}
 		e.cutAtHeader(fr, phis)
@@ -768,6 +787,31 @@ func (e *Engine) enterBlock(fr *frame) {
 	for i, p := range phis {
 		fr.env[p] = tmp[i]
 	}
+}
+
+// tableLoopBackEdge: one iteration of a table-filling loop has run from an
+// arbitrary index iv: it ran for an index inside the table, stored every cell
+// of entry iv (and of no other entry), and advances the index by one.
+func (e *Engine) tableLoopBackEdge(fr *frame, h *ssa.BasicBlock, tl *tableLoopSpec) {
+	w := tl.iv.W
+	e.obligation(term.Slt(tl.iv, term.Const(w, uint64(tl.hi))), "table-contract: the loop body runs only for indices below the table length", false)
+	pi := -1
+	for i, p := range h.Preds {
+		if p == fr.prev {
+			pi = i
+		}
+	}
+	if pi >= 0 {
+		next := asT(fr.get(tl.phi.Edges[pi]))
+		e.obligation(term.Eq(next, term.Add(tl.iv, term.Const(w, 1))), "table-contract: the table loop advances its index by one", false)
+	}
+	e.obligation(term.Bool(len(tl.stores) == tl.storesPerIter), fmt.Sprintf("table-contract: one iteration stores all %d cells of its table entry (stored: %d)", tl.storesPerIter, len(tl.stores)), false)
+	same := term.True
+	for _, c := range tl.stores {
+		same = term.BAnd(same, term.Eq(c, term.Extract(tl.iv, c.W-1, 0)))
+	}
+	e.obligation(same, "table-contract: iteration i stores into table entry i", false)
+	e.res.Reached["table-loop:back-edge"]++
 }
 
 func mergeValues(c *term.T, a, b Value) Value {
